@@ -61,7 +61,11 @@ def sparseLoopX (k n m : Nat) (planted : List (List Int)) : Nat → List Parity 
         else sparseLoopX k n m planted fuel (acc ++ [(X, b)])
     else pure acc
 
-def denseParities (k n m : Nat) (planted : List (List Int)) : RandM (List Parity) := do
+/-- dense sampling of `sample_parities`; `itertools.combinations(range(1, n+1), k)` inside
+`all_good_parities` raises OverflowError once `n > sys.maxsize` (see `denseClauses`) -/
+def denseParities (k n m : Nat) (planted : List (List Int)) : RandM (List Parity) :=
+  if sysMaxsize < n then RandM.raise .overflowError
+  else do
   let fullset ← RandM.lift (allGoodParities k n planted)
   if fullset.length < m then RandM.raise .valueError
   else sampleFrom fullset m ([], 0)
